@@ -115,7 +115,7 @@ Section HMAC.
     firstn len (xmd_blocks ((len + out_len p - 1) / out_len p) 1 b0 (repeat x00 (out_len p)) dstp).
   (** hash_to_field, m = 1, count = 1: one element of GF(q) from L uniform bytes *)
   Definition hash_to_field (msg dst : list byte) (L : nat) (q : N) : N :=
-    be_dec (expand_message_xmd msg dst L) mod q.
+    be_dec_h (expand_message_xmd msg dst L) mod q.
 End HMAC.
 
 Definition of_ascii (s : list N) : list byte := map n2b s.
